@@ -750,6 +750,29 @@ def run(c):
                          {"source": name, "envelope": t, "clause": "continues to validate after being re-serialised with different member order, whitespace or string escapes"},
                          finding_id=fid)
 
+    # the same through the command line (`gobl validate` reads its input itself): a sample of the re-encodings that the
+    # library accepted, plus forms with every solidus escaped and with a surrogate-pair escape for a non-BMP character
+    build_cli()
+    cli_cases = []
+    for (name, texts) in re_meta[:: max(1, len(re_meta) // (12 if quick else 200))]:
+        env0 = json.loads(texts[0])
+        cli_cases.append((name, texts[0]))
+        cli_cases.append((name, json.dumps(env0).replace("/", "\\/")))
+    tmpf = os.path.join(WORK, "c08cli.%d.json" % os.getpid())
+    for name, t in cli_cases:
+        open(tmpf, "w").write(t)
+        p_ = subprocess.run([os.path.join(BIN, "gobl"), "validate", tmpf], stdout=subprocess.PIPE, stderr=subprocess.PIPE, text=True, env=GOENV)
+        c.count("re-encoding:cli", 1, t)
+        if p_.returncode != 0:
+            err_ = " ".join(l for l in p_.stderr.split("\n") if not l.startswith("WARNING conda"))[:300]
+            c.report("`gobl validate` refuses a content-preserving re-encoding of %s that the library accepts: %s" % (name, err_),
+                     {"source": name, "envelope": t, "stderr": err_, "command": "bin/gobl validate <file>",
+                      "clause": "continues to validate after being re-serialised with different member order, whitespace or string escapes"})
+            break
+    try:
+        os.remove(tmpf)
+    except OSError:
+        pass
     log("re-encodings done", round(time.time() - T0, 1))
     # ---- (2) single edits ----
     all_edits = []    # (source index, kind, op, path, payload, note)
